@@ -145,6 +145,27 @@ fn main() {
             let code = fw::finish(&ctx, &id, rep, &sc);
             std::process::exit(code);
         }
+        "stage" => {
+            // debugging aid: run one sanitizer stage alone
+            let ctx = Ctx::new(Tier::Thorough, seed());
+            let mut st = stats::Stats::new();
+            let mut extra = vec![];
+            let r = match args.get(2).map(|s| s.as_str()) {
+                Some("miri") => sanit::miri_stage(&ctx, "dbg", 16),
+                Some("miri-mt") => sanit::miri_stage_with(&ctx, "dbgmt", 16, ctx.scale(48), 3),
+                Some("tsan") => sanit::tsan_stage(&ctx, 1),
+                Some("asan") => sanit::asan_stage(&ctx),
+                _ => usage(),
+            };
+            r.apply("STAGE", &mut st, &mut extra);
+            println!("{}", serde_json::to_string_pretty(&extra).unwrap());
+            for v in &st.violations {
+                println!("VIOLATION {} {}", v.kind, v.detail);
+            }
+            for w in &st.inconclusive {
+                println!("INCONCLUSIVE {w}");
+            }
+        }
         "c19-child" => {
             std::process::exit(props::c19::child_main(args.get(2).map(|s| s.as_str()).unwrap_or(""), args.get(3).map(|s| s.as_str()).unwrap_or("")));
         }
